@@ -24,6 +24,17 @@ def run(R):
     for b in blocks:
         k = R.rng.choice(keys)
         ops1.append("DB %s 0 1 %s 0" % (hx(k), hx(b))); want1.append(pydes.crypt_block(k, b).hex())
+    # every table slot: each byte value at each byte position of the block (both directions: IP reads the input, FP the result of the rounds) and of
+    # the key, the other bytes random - the tables are indexed by bytes / 7-bit groups, a single wrong word shows for one value at one position only
+    # (seeded/C17f: one of the 8448 table words; the table theorems name the table, this batch gives the failing block)
+    for pos in range(8):
+        for v in range(256):
+            k = rb(8); b = bytearray(rb(8)); b[pos] = v; b = bytes(b)
+            dec = (v + pos) & 1
+            ops1.append("DB %s 0 1 %s %d" % (hx(k), hx(b), dec)); want1.append(pydes.crypt_block(k, b, 0, 1, bool(dec)).hex())
+            if v % 2 == 0 or not quick:
+                kk = bytearray(rb(8)); kk[pos] = v; kk = bytes(kk); bb = rb(8)
+                ops1.append("DB %s 0 1 %s 0" % (hx(kk), hx(bb))); want1.append(pydes.crypt_block(kk, bb).hex())
     salts = [0, 1, 2, 1 << 11, 1 << 12, 1 << 23, 0xffffff, 0xfff, 0xaaaaaa, 0x555555] + [1 << i for i in range(24)] + [R.rng.randrange(1 << 24) for _ in range(20 if quick else 500)]
     for s in salts:
         k, b = rb(8), rb(8); c = R.rng.choice([0, 1, 2, 3, 25, 7])
